@@ -2,7 +2,7 @@ package formatter
 
 // Bounded stand-ins (C04, C05): "formatting never changes what the journal says" and "formatting formatted text changes
 // nothing" are relations between two parses, outside the per-function contracts. Here every journal of one transaction
-// built from 9 first postings x 6 second postings x 5 comment spellings x 3 header forms is formatted twice: the second
+// built from 13 first postings x 6 second postings x 5 comment spellings x 3 header forms is formatted twice: the second
 // pass must change nothing, and the formatted text must parse to the same postings (account, quantity, commodity, cost,
 // balance assertion, comment text up to surrounding blanks) as the original.
 
@@ -69,7 +69,7 @@ func formatOnce(content string) string {
 
 func TestVerifBounded_FormatIdempotent(t *testing.T) {
 	heads := []string{"2024-01-01 shop", "2024-01-01 * (7) café | note", "2024-01-01 ! x  ; header comment"}
-	firsts := []string{"assets:cash  1 USD", "assets:cash  $1.50", "assets:cash  -2 EUR", "assets:broker  10 AAPL @ 150 USD", "assets:broker  10 AAPL @@ 1500 USD", "assets:cash  5 USD = 100 USD", "assets:cash  1 \"AAPL 2024\"", "(assets:virtual)  1 USD", "* assets:cleared   1,000.50 USD"}
+	firsts := []string{"assets:cash  1 USD", "assets:cash  $1.50", "assets:cash  -2 EUR", "assets:broker  10 AAPL @ 150 USD", "assets:broker  10 AAPL @@ 1500 USD", "assets:cash  5 USD = 100 USD", "assets:cash  1 \"AAPL 2024\"", "(assets:virtual)  1 USD", "* assets:cleared   1,000.50 USD", "assets:cash  \"usd\" 5", "assets:cash  \"A1\" 5", "assets:cash  USD 5", "assets:cash  5 hours"}
 	seconds := []string{"expenses:food", "expenses:food  -1 USD", "[expenses:budget]  -1 USD", "expenses:food  = 0 USD", "expenses:food  -1 \"AAPL 2024\" @ 2 USD", "expenses:a b  -1 USD"}
 	comments := []string{"", "  ; note", " ;note", "  ;   spaced out", "  ; tag:value, other:x"}
 	cases := 0
